@@ -16,14 +16,10 @@ variable {τ : Type}
 /-- a request whose Message ID is the one before the expected one is answered with the stored
     response, byte for byte; it is not executed; nothing but the liveness timer changes -/
 theorem c08_request_replay (H : Handlers τ) (t : τ) (s : Sa) (now : Nat) (m : Msg)
-    (hflag : m.hdr.isInit ≠ s.core.isInit)
-    (hspi : m.hdr.exch = 34 ∨ (m.hdr.spiI, m.hdr.spiR) = (s.core.spiI, s.core.spiR))
-    (hreq : m.hdr.isResp = false) (hid : m.hdr.msgId + 1 = s.core.peerId) :
+    (hgate : gate s.core m = .pass) (hreq : m.hdr.isResp = false) (hid : m.hdr.msgId + 1 = s.core.peerId) :
     processMessage H t s now (some m) =
       (t, { sa := touchDpd s now, out := s.core.lastResp, nl := [], escaped := false, ran := 0 }) := by
-  have h2 : ¬ (m.hdr.exch ≠ 34 ∧ (m.hdr.spiI, m.hdr.spiR) ≠ (s.core.spiI, s.core.spiR)) := by
-    rcases hspi with h | h <;> simp [h]
-  simp only [processMessage, hflag, h2, hreq, if_false, Bool.false_eq_true]
+  simp only [processMessage, hgate, hreq, Bool.false_eq_true, if_false]
   simp [processRequest, touchDpd, hid]
 
 /-- any other Message ID (neither expected nor the one before) is dropped without effect -/
@@ -66,15 +62,24 @@ theorem c08_response_consumes_id (H : Handlers τ) (t t' : τ) (s : Sa) (now : N
 /-- the handler of an accepted response sees the counter already advanced -/
 theorem c08_response_handler_sees_next_id (s : Sa) : (bumpMyId s).core.myId = s.core.myId + 1 := rfl
 
-/-- wrong initiator flag or foreign SPIs: dropped before the window is even consulted -/
-theorem c08_wrong_flag_or_spi_dropped (H : Handlers τ) (t : τ) (s : Sa) (now : Nat) (m : Msg)
-    (h : m.hdr.isInit = s.core.isInit ∨ (m.hdr.exch ≠ 34 ∧ (m.hdr.spiI, m.hdr.spiR) ≠ (s.core.spiI, s.core.spiR))) :
-    processMessage H t s now (some m) = (t, { sa := s }) := by
-  rcases h with h | h
-  · simp [processMessage, h]
-  · by_cases hf : m.hdr.isInit = s.core.isInit
-    · simp [processMessage, hf]
-    · simp [processMessage, hf, h]
+/-- wrong initiator flag, foreign SPIs, or cleartext IKE_SA_INIT after keys: dropped before the window is
+    even consulted, nothing changes (the latter may at most obtain the stored IKE_SA_INIT response) -/
+theorem c08_gate_closed (H : Handlers τ) (t : τ) (s : Sa) (now : Nat) (m : Msg) (h : gate s.core m ≠ .pass) :
+    (processMessage H t s now (some m)).1 = t ∧ (processMessage H t s now (some m)).2.sa = s ∧
+    (processMessage H t s now (some m)).2.ran = 0 ∧ (processMessage H t s now (some m)).2.nl = [] := by
+  simp only [processMessage]
+  cases hg : gate s.core m with
+  | drop => simp
+  | cached => simp
+  | pass => exact absurd hg h
+
+theorem c08_gate_conditions (s : SaCore) (m : Msg) :
+    (m.hdr.isInit = s.isInit → gate s m = .drop) ∧
+    (m.hdr.isInit ≠ s.isInit → ¬ (s.keyed = true ∧ m.hdr.exch = 34) → m.hdr.exch ≠ 34 →
+       (m.hdr.spiI, m.hdr.spiR) ≠ (s.spiI, s.spiR) → gate s m = .drop) := by
+  constructor
+  · intro h; simp [gate, h]
+  · intro h1 h2 h3 h4; simp [gate, h1, h2, h3, h4]
 
 /-- Histories: under ANY duplication, reordering, delay or loss of what arrives — i.e. for every
     list of inputs whatsoever — the Message IDs of the requests that get executed are strictly
@@ -95,17 +100,9 @@ theorem c08_executed_ids_strictly_increasing (H : Handlers τ) (hf : PeerFrame H
       simp only [processMessage]
       exact ih t s acc hp hb
     | some m =>
-      -- the three ways processMessage can go
-      by_cases hdrop : m.hdr.isInit = s.core.isInit ∨
-          (m.hdr.exch ≠ 34 ∧ (m.hdr.spiI, m.hdr.spiR) ≠ (s.core.spiI, s.core.spiR))
-      · rw [c08_wrong_flag_or_spi_dropped H t s now m hdrop]
-        simp only [Nat.not_lt_zero, ge_iff_le, Nat.le_zero_eq, Nat.succ_ne_zero, and_false, if_false,
-          show ¬ (¬ m.hdr.isResp = true ∧ (1 : Nat) ≤ 0) by omega]
-        exact ih t s acc hp hb
-      · have h1 : ¬ m.hdr.isInit = s.core.isInit := fun h => hdrop (Or.inl h)
-        have h2 : ¬ (m.hdr.exch ≠ 34 ∧ (m.hdr.spiI, m.hdr.spiR) ≠ (s.core.spiI, s.core.spiR)) :=
-          fun h => hdrop (Or.inr h)
-        simp only [processMessage, h1, h2, if_false]
+      -- the ways processMessage can go
+      by_cases hg : gate s.core m = .pass
+      · simp only [processMessage, hg]
         by_cases hr : m.hdr.isResp = true
         · -- a response: nothing is appended, the peer counter is untouched
           simp only [hr, if_true, not_true_eq_false, false_and, if_false]
@@ -140,6 +137,11 @@ theorem c08_executed_ids_strictly_increasing (H : Handlers τ) (hf : PeerFrame H
             have h4 := hm.1
             have h5 : (touchDpd s now).core.peerId = s.core.peerId := rfl
             omega
+      · obtain ⟨h1, h2, h3, _⟩ := c08_gate_closed H t s now m hg
+        have h3' : ¬ ((processMessage H t s now (some m)).2.ran ≥ 1) := by omega
+        simp only [h3', and_false, if_false]
+        rw [h1, h2]
+        exact ih t s acc hp hb
 
 /-- corollary in the property's words: starting from a fresh IKE_SA, whatever arrives in whatever
     order and however often, every Message ID is executed at most once -/
